@@ -51,6 +51,7 @@ fn main() {
     "C20" => c20::run(&mut sink, &mut rng, thorough),
     "C08" => st::c08(&mut sink, &mut rng, thorough),
     "C09" => st::c09(&mut sink, &mut rng, thorough),
+    "C11" => st::c11(&mut sink, &mut rng, thorough),
     "C10" => st::c10(&mut sink, &mut rng, thorough),
     "C14" => mocset::histories(&mut sink, &mut rng, thorough, &dir.join("work")),
     "C16" => mocset::crash_points(&mut sink, &mut rng, thorough, &dir.join("work")),
